@@ -23,7 +23,7 @@ ANCHORS = [
     "raggedarray/raggedslice.py::ragged_slice", "mixin.py::NPSIndexable.__getitem__", "raggedarray/__init__.py::RaggedArray._as_padded_matrix",
 ]
 OPS = ["concat0", "concat1", "like", "padded", "nonzero", "where", "subset", "maskidx", "rslice_ra", "rslice_1d", "rslice_2d", "nps"]
-FLOOR_TAGS = ["op:" + o for o in OPS] + ["ends:none", "ends:inside", "ends:negative", "ends:beyond", "where:xy", "where:xs", "mask:allfalse", "mask:alltrue",
+FLOOR_TAGS = ["op:" + o for o in OPS] + ["ends:none", "ends:inside", "ends:negative", "ends:beyond", "where:xy", "where:xs", "where:scalar-other-kind", "mask:allfalse", "mask:alltrue",
                                          "operand:norows", "operand:allempty", "side:left", "side:right", "recv:fresh", "recv:lazyrows", "recv:lazycols+2", "starts:none"]
 FLOOR_MONITORS = ["c08:compare", "c08:arguments-unchanged"]
 N_RANDOM = {"quick": 30000, "thorough": 400000}
@@ -204,11 +204,13 @@ def run(case):
         else:
             s = case["scalar"]
             exp = [np.where(mm, x, s) for mm, x in zip(mrows, rows)]
+            if not isinstance(s, (bool, int)) or isinstance(s, np.generic) or (dt.kind == "b" and not isinstance(s, bool)):
+                tags.append("where:scalar-other-kind")
             a = attempt(lambda: np.where(mask, ra, s))
         desc = "np.where(mask, x, %s) with mask %s, x %s" % ("y" if form == "xy" else repr(case.get("scalar")), short([r.tolist() for r in mrows], 120), short([r.tolist() for r in rows], 120))
         if not a.ok:
             return violated("%s raised %r" % (desc, a), tags)
-        r = check_rows(a.value, exp, desc, tags)
+        r = check_rows(a.value, exp, desc, tags, dtype=(np.concatenate(exp).dtype if (tot and exp) else None))
         if r:
             return r
         return held(tags, nontrivial) if unchanged() else violated("%s modified its operand" % desc, tags)
@@ -308,7 +310,11 @@ def gen_case(rng, tier, op=None, lens=None, dtype=None, recv=None):
             if c["form"] == "xy":
                 c["y"] = spec(rng, lens_, dtype, rv())
             else:
-                c["scalar"] = 5 if np.dtype(dtype).kind != "b" else True
+                # the scalar may be of another kind / width than x's elements: numpy promotes (python scalars weakly, numpy scalars by type)
+                c["scalar"] = rng.choice([5 if np.dtype(dtype).kind != "b" else True, 5 if np.dtype(dtype).kind != "b" else True, 0.5, float("nan"), 7, -1, True,
+                                          np.int64(1000), np.float32(2.5), np.uint8(3), np.float64(-0.25), np.int8(-3)])
+                if np.dtype(dtype).kind == "u" and isinstance(c["scalar"], int) and not isinstance(c["scalar"], bool) and c["scalar"] < 0:
+                    c["scalar"] = 7        # a negative python int next to an unsigned array is an OverflowError in numpy itself
         if op == "rslice_ra":
             del c["mask"], c["mask_recv"]
             st = [rng.randint(0, l) for l in lens_]
